@@ -10,6 +10,7 @@ from . import core, gen
 from .core import comp_problem, quiet
 
 ORACLES = {}
+CURRENT_K = 0      # index of the oracle case being run (set by check.py; used for deterministic variant cycling)
 
 
 def oracle(prop, name):
@@ -534,7 +535,7 @@ def c18_drag(rng, tier):
         out.append(_fail("viscous drag does not increase with thickness ratio", [c0, c2], "increasing", **case))
     # wave drag shape
     s["with_wave"] = True
-    CL = float(rng.uniform(0, 0.8))
+    CL = float(rng.uniform(-0.8, 0.8))
     area = 0.5 * (lengths[:-1] + lengths[1:]) * widths
     ac = np.sum(widths / lsp * area) / area.sum(); at = np.sum(toc * area) / area.sum()
     mcrit = 0.95 / ac - at / ac ** 2 - CL / (10 * ac ** 3) - (0.1 / 80.0) ** (1.0 / 3.0)
@@ -622,6 +623,8 @@ def c13_defaults(rng, tier):
     sym = bool(rng.integers(2))
     kind = str(rng.choice(["flat", "pretwisted", "cambered", "dihedral", "cambered+dihedral"]))
     mesh, span, chord = _clean_mesh(rng, nx, ny, sym, kind)
+    if rng.uniform() < 0.4:
+        mesh[:, :, 1] += float(rng.normal() * 2.0)       # surface not centred on / rooted at y = 0
     ncp = int(rng.integers(2, 5))
     s = dict(name="wing", symmetry=sym, mesh=mesh.copy(), S_ref_type="wetted", fem_model_type="tube")
     if rng.uniform() < 0.5:
@@ -727,6 +730,97 @@ def c13_effects(rng, tier):
         if relerr(m, req) > 1e-12:
             out.append(_fail("equal %s control points do not translate every section by the same amount" % key, m - mesh, req - mesh, ncp=ncp, **case))
     return out
+
+
+# ---------------------------------------------------------------------------------------
+# history (C03, and as a supplement for every property's component footprint):
+# a live component problem taken through a sequence of points must reproduce a fresh problem
+# ---------------------------------------------------------------------------------------
+def history_case(name, rng, tier, variant=None):
+    """one live-problem history for component spec `name`; returns failures (code vs code, no model involved)"""
+    from .specs import SPECS
+    from . import suites
+    from .core import comp_jacobian, comp_outputs, flat_cat
+    sp = SPECS[name]
+    nx, ny = _pick_size(rng, tier)
+    ny = max(ny, sp["min_ny"])
+    sym = bool(sp["sym_opts"][int(rng.integers(len(sp["sym_opts"])))])
+    c = suites.component_case(name, rng, nx, ny, sym)
+    inputs = dict(c["inputs"]); extra = dict(c.get("extra_inputs", {}))
+    outs = c["outputs"]; innames = list(inputs)
+    allA = dict(inputs); allA.update(extra)
+
+    def perturbed(kind):
+        b = {}
+        for k, v in allA.items():
+            v = np.array(v, dtype=float)
+            b[k] = v * (1 + 0.2 * rng.uniform(-1, 1, size=v.shape)) if kind != "same" else v.copy()
+        if kind.startswith("zero:"):
+            k0 = kind[5:]
+            b[k0] = np.zeros_like(np.array(allA[k0], dtype=float))
+        return b
+    big = [k for k in innames if np.asarray(allA[k]).size > 1]
+    kinds = ["zero:" + k for k in big] + ["perturbed", "same"]
+    kind = kinds[int(rng.integers(len(kinds)))] if variant is None else kinds[variant % len(kinds)]
+    B = perturbed(kind)
+    want_jac = c.get("jac", True) and sp["jac"]
+
+    def evaluate(prob):
+        with quiet():
+            prob.run_model()
+        o = flat_cat(comp_outputs(prob, outs), outs)
+        J = None
+        if want_jac:
+            Jd = comp_jacobian(prob, outs, innames)
+            J = np.concatenate([np.concatenate([Jd[(oo, ii)].ravel() for ii in innames]) for oo in outs])
+        return o, J
+
+    def setall(prob, vals):
+        for k, v in vals.items():
+            prob.set_val(k, v)
+    live = comp_problem(c["factory"](), allA)
+    seq = ["A"]
+    evaluate(live)
+    nrep = int(rng.integers(1, 3))
+    for _ in range(nrep):          # linearise repeatedly at A
+        if want_jac:
+            comp_jacobian(live, outs, innames); seq.append("linearize")
+    setall(live, B); seq.append("B(%s)" % kind)
+    oL, JL = evaluate(live)
+    if rng.uniform() < 0.5:
+        oL, JL = evaluate(live); seq.append("again")
+    fresh = comp_problem(c["factory"](), B)
+    oF, JF = evaluate(fresh)
+    out = []
+    case = dict(component=name, nx=nx, ny=ny, symmetry=sym, sequence=seq)
+
+    def same(a, b):
+        a = np.asarray(a, dtype=float); b = np.asarray(b, dtype=float)
+        if a.shape != b.shape:
+            return False
+        fin = np.isfinite(a) & np.isfinite(b)
+        if not np.array_equal(np.isfinite(a), np.isfinite(b)):
+            return False
+        if not fin.any():
+            return True
+        sc = max(np.max(np.abs(a[fin])), np.max(np.abs(b[fin])), 1e-300)
+        return bool(np.max(np.abs(a[fin] - b[fin])) <= 1e-10 * sc)
+    if not same(oL, oF):
+        out.append(_fail("outputs of a live problem differ from a fresh problem at the same point", float(np.nanmax(np.abs(oL - oF))), 0.0, **case))
+    if want_jac and not same(JL, JF):
+        out.append(_fail("derivatives of a live problem differ from a fresh problem at the same point", float(np.nanmax(np.abs(JL - JF))), 0.0, **case))
+    return out
+
+
+def register_history(prop, components):
+    comps = [c for c in components]
+    if not comps or any(n.startswith("history:") for n, _ in ORACLES.get(prop, [])):
+        return
+
+    for cname in comps:
+        def f(rng, tier, cname=cname):
+            return history_case(cname, rng, tier, variant=CURRENT_K)
+        ORACLES.setdefault(prop, []).append(("history:" + cname, f))
 
 
 class Discard(Exception):
